@@ -307,13 +307,19 @@ func c12WriteRaw(es []c12Raw) []byte {
 		case 4:
 			_, err := zw.Create(e.name)
 			must(err)
+		case 5:
+			// declared uncompressed size >= 2^63: FileInfo().Size() is negative
+			w, err := zw.CreateRaw(&zip.FileHeader{Name: e.name, Method: zip.Store, CRC32: crc32.ChecksumIEEE(e.content),
+				CompressedSize64: uint64(len(e.content)), UncompressedSize64: 1<<63 + 5})
+			must(err)
+			w.Write(e.content)
 		}
 	}
 	must(zw.Close())
 	return buf.Bytes()
 }
 
-var c12Variants = []string{"plain", "backslash", "upper", "dirs", "stored-reordered", "badmethod", "badcrc", "dup", "sstkey", "sheets-last"}
+var c12Variants = []string{"plain", "backslash", "upper", "dirs", "stored-reordered", "badmethod", "badcrc", "dup", "sstkey", "sheets-last", "negsize"}
 
 func c12IsSheetName(n string) bool {
 	return strings.HasPrefix(strings.ToLower(strings.ReplaceAll(n, "\\", "/")), "xl/worksheets/sheet")
@@ -375,6 +381,9 @@ func c12ApplyVariant(data []byte, variant string, seed uint64) []byte {
 			}
 		}
 		es = out
+	case "negsize":
+		// first entry, so that nothing has been spilled when readFile panics on the negative capacity
+		es = append([]c12Raw{{name: "docProps/neg.bin", content: []byte("x"), mode: 5}}, es...)
 	case "sstkey":
 		es = append(es, c12Raw{name: c12SSTKey, content: []byte("not a part")})
 	}
@@ -1275,7 +1284,7 @@ func runC12(r *Run, rng *Rng, replay string) {
 	}
 	var ids []string
 	// deterministic witnesses first
-	ids = append(ids, "gen:1:plain", "gen:2:dup", "gen:3:badmethod", "gen:4:badcrc")
+	ids = append(ids, "gen:1:plain", "gen:2:dup", "gen:3:badmethod", "gen:4:badcrc", "gen:5:negsize")
 	for i := 0; i < nGen; i++ {
 		seed := rng.U64() % 1000000
 		v := "plain"
